@@ -251,6 +251,11 @@ func (env *Env) ident(name string) Val {
 	case "false":
 		return Val{T: tBool, C: []Term{tFalse}}
 	}
+	if env.useOld {
+		if v, ok := env.vars["old$"+name]; ok {
+			return v
+		}
+	}
 	if v, ok := env.vars[name]; ok {
 		return v
 	}
@@ -946,9 +951,12 @@ func (tr *Trans) goalClause(env *Env, e ast.Expr) (Term, []Term) {
 	env.mode = 0
 	var extra []Term
 	for _, k := range env.skolems {
-		for _, h := range tr.g.hyps {
-			if x := h(k); x.S != "true" {
-				extra = append(extra, x)
+		// the index itself and its neighbours (shifted views: byte-at-a-time readers and writers)
+		for _, idx := range []Term{k, add(k, intT(1)), sub(k, intT(1)), intT(0)} {
+			for _, h := range tr.g.hyps {
+				if x := h(idx); x.S != "true" {
+					extra = append(extra, x)
+				}
 			}
 		}
 	}
